@@ -139,15 +139,18 @@ package blocklist
 //@ func (*BlockList).parseHostFile
 //@   abstract
 //@   nosafety all pre
+//@   # a frame condition on READS: what the parser stores depends on the file's content alone - it consults no
+//@   # package-level table (a table of names to pass over would make the reloaded list differ from the saved one)
+//@   readsglobals
 //@   # "the persisted local list reloads to exactly the in-memory list": every name field of a line is stored, as its
 //@   # canonical form, WHATEVER is already blocked - the decision never consults the current list (an entry that another
 //@   # entry covers today is what keeps blocking after that one is removed)
 //@   assert at call (*middleware/blocklist.BlockList).set#1: sameslice(arg1, canon(n)) && !lastret("strings.HasPrefix") && calls("(*middleware/blocklist.BlockList).Exists") == 0
 //@   # ... and no name is special. Stated only as possibility claims for names a hosts file ships with (the saved list
 //@   # is this parser's input too, so a name it skipped would block in memory and be gone after a reload). They refute a
-//@   # skip written as a comparison; a skip through a package-level table is NOT refuted (the table's content is unknown
-//@   # to the generator) - seeded change C18-9 is such a skip and is the one seed the checks miss. The universal form,
-//@   # "set is called once per name field", needs a per-iteration counter the contract language does not have.
+//@   # skip written as a comparison; a skip through a package-level table is caught by the `readsglobals` frame above
+//@   # (seeded change C18-9). The universal form, "set is called once per name field", needs a per-iteration counter the
+//@   # contract language does not have.
 //@   possible at call (*middleware/blocklist.BlockList).set#1: n == "localhost"
 //@   possible at call (*middleware/blocklist.BlockList).set#1: n == "local"
 //@   possible at call (*middleware/blocklist.BlockList).set#1: n == "broadcasthost"
